@@ -307,6 +307,7 @@ int main(int argc, char **argv) {
                 P->deepfree(ST); free(ST); ST = keep; free(blk);
             }
             if (!detail) fputc('\n', drv_log);
+            else fprintf(drv_log, "w 256\n");      /* end of the sweep: hooks of the last byte's end() step stop here */
         }
         else if (!strcmp(cmd, "SNAP")) { fprintf(drv_log, "N "); P->snap(ST); fputc('\n', drv_log); }
         else if (!strcmp(cmd, "FREE")) {
